@@ -18,14 +18,16 @@ func c12PublicAPI(r *Runner, harness string) string {
 	}
 	P := "type P struct {\n\tA int\n\tB string\n}\n\n"
 	cfgs := map[string]cfg{
-		"cfg0":    {nil, P + "var _ = func(a, b *P) bool { return deriveEqual(a, b) }\nvar _ = func(l []int) []int { return deriveSort(l) }\n"},
-		"cfg0gen": {[]string{"-prefix=gen"}, P + "var _ = func(a, b *P) bool { return genEqual(a, b) }\nvar _ = func(l []int) []int { return genSort(l) }\n"},
-		"cfg1":    {[]string{"-pluginprefix=compare=cmp,equal=cmpEq"}, P + "var _ = func(a, b *P) bool { return cmpEq(a, b) }\nvar _ = func(a, b *P) int { return cmp(a, b) }\n"},
-		"cfg2":    {[]string{"-pluginprefix=equal=eq,compare=eqOrd"}, P + "var _ = func(a, b *P) bool { return eq(a, b) }\nvar _ = func(a, b *P) int { return eqOrd(a, b) }\n"},
-		"cfg3":    {[]string{"-pluginprefix=sort=deriveS,set=deriveSet2,keys=deriveSet"}, "var _ = func(l []int) map[int]struct{} { return deriveSet2(l) }\nvar _ = func(m map[int]string) []int { return deriveSet(m) }\nvar _ = func(l []int) []int { return deriveS(l) }\n"},
-		"cfg4":    {[]string{"-prefix=gen", "-pluginprefix=hash=deriveHash,mem=deriveHashMem"}, P + "var _ = func(a *P) uint64 { return deriveHash(a) }\nvar _ = func(f func(int) int) func(int) int { return deriveHashMem(f) }\n"},
-		"cfg6gen": {[]string{"-prefix=gen", "-pluginprefix=equal=deriveEqual,compare=deriveCmp"}, P + "var _ = func(a, b *P) bool { return deriveEqual(a, b) }\nvar _ = func(a, b *P) int { return deriveCmp(a, b) }\nvar _ = func(a *P) uint64 { return genHash(a) }\n"},
-		"cfg5":    {[]string{"-pluginprefix=min=m,max=mm,mem=mmm"}, "var _ = func(a, b int) int { return m(a, b) }\nvar _ = func(a, b int) int { return mm(a, b) }\nvar _ = func(f func(int) int) func(int) int { return mmm(f) }\n"},
+		"cfg0":      {nil, P + "var _ = func(a, b *P) bool { return deriveEqual(a, b) }\nvar _ = func(l []int) []int { return deriveSort(l) }\n"},
+		"cfg0gen":   {[]string{"-prefix=gen"}, P + "var _ = func(a, b *P) bool { return genEqual(a, b) }\nvar _ = func(l []int) []int { return genSort(l) }\n"},
+		"cfg1":      {[]string{"-pluginprefix=compare=cmp,equal=cmpEq"}, P + "var _ = func(a, b *P) bool { return cmpEq(a, b) }\nvar _ = func(a, b *P) int { return cmp(a, b) }\n"},
+		"cfg2":      {[]string{"-pluginprefix=equal=eq,compare=eqOrd"}, P + "var _ = func(a, b *P) bool { return eq(a, b) }\nvar _ = func(a, b *P) int { return eqOrd(a, b) }\n"},
+		"cfg3":      {[]string{"-pluginprefix=sort=deriveS,set=deriveSet2,keys=deriveSet"}, "var _ = func(l []int) map[int]struct{} { return deriveSet2(l) }\nvar _ = func(m map[int]string) []int { return deriveSet(m) }\nvar _ = func(l []int) []int { return deriveS(l) }\n"},
+		"cfg4":      {[]string{"-prefix=gen", "-pluginprefix=hash=deriveHash,mem=deriveHashMem"}, P + "var _ = func(a *P) uint64 { return deriveHash(a) }\nvar _ = func(f func(int) int) func(int) int { return deriveHashMem(f) }\n"},
+		"cfg6gen":   {[]string{"-prefix=gen", "-pluginprefix=equal=deriveEqual,compare=deriveCmp"}, P + "var _ = func(a, b *P) bool { return deriveEqual(a, b) }\nvar _ = func(a, b *P) int { return deriveCmp(a, b) }\nvar _ = func(a *P) uint64 { return genHash(a) }\n"},
+		"cfg0empty": {[]string{"-prefix="}, P + "var _ = func(a, b *P) bool { return Equal(a, b) }\nvar _ = func(m map[string]int) []string { return Sort(Keys(m)) }\n"},
+		"cfg2empty": {[]string{"-prefix=", "-pluginprefix=equal=eq,compare=eqOrd"}, P + "var _ = func(a, b *P) bool { return eq(a, b) }\nvar _ = func(a, b *P) int { return eqOrd(a, b) }\nvar _ = func(a *P) uint64 { return Hash(a) }\n"},
+		"cfg5":      {[]string{"-pluginprefix=min=m,max=mm,mem=mmm"}, "var _ = func(a, b int) int { return m(a, b) }\nvar _ = func(a, b int) int { return mm(a, b) }\nvar _ = func(f func(int) int) func(int) int { return mmm(f) }\n"},
 	}
 	key := harness[strings.LastIndex(harness, "_")+1:]
 	c, ok := cfgs[key]
